@@ -44,6 +44,12 @@ CLAIMED = {
  'C19': dict(cat='model_checking', tech='depth-3 call histories (call, call, call on the same argument objects) for every public callable found by introspection x argument profiles x containers, byte snapshots as oracle',
    text='256 public callables discovered by introspection, all with an argument builder (uncovered list is empty and reported); profiles unit/non-unit, rad/deg, single/N-row, caller-owned optional arrays, ndarray/list/strided view (thorough: Fortran order, negative stride, float32, three scales); after each of three calls every argument array must be byte-identical and the three results bit-identical.',
    note='Bounded to three calls and the listed profiles; RNG-drawing callables are re-seeded before each call (owned seam).'),
+ 'C03': dict(cat='model_checking', tech='safety invariant checked on every state of an exhaustive enumeration of all short sensor histories (all constant histories over a direction lattice, all length-3 words over a pose alphabet) for every estimator configuration, on the real estimators',
+   text='About 60 estimator configurations (22 single-frame entries x frames, 20 recursive filter entries x 2 parameter sets): every pair of the 26 lattice directions at least 1 degree from parallel (624 pairs: every exact canonical pose and every inconsistent pairing) x 2 (quick) / 9 (thorough) magnitude pairs x N = 1, 2, 3, and all 216 length-3 words over a 6-pose alphabet x 3 gyro vectors; invariant on every emitted row: one per sample, real, finite, unit / SO(3).',
+   note='Histories of length <= 3; magnitudes 1e-3..1e3; known findings (published singular poses of QUEST, SAAM, FAMC, AQUA; half-turn initialisation of Mahony-MARG and FKF; UKF covariance) are listed by site and by direction pair / pose word.'),
+ 'C05': dict(cat='model_checking', tech='exhaustive enumeration of closed-loop orbits (filter x configuration x true attitude x initial-error axis/angle x zero-mean gyro-noise pattern) run to a per-configuration horizon on the real filters; reachability of the target set and invariance afterwards',
+   text='27 filter configurations (Madgwick, Mahony, EKF, UKF, AQUA, ROLEQ, FKF, Complementary; IMU/MARG; NED/ENU; default and non-default gains; 10 and 100 Hz) x 6 true attitudes x 6 axes x 6 initial error angles (0..175 deg) x 10 zero-mean periodic gyro-noise patterns in the thorough tier (quick: a fixed sub-grid incl. 150 and 175 deg); every orbit is run to its horizon (about twice the slowest measured settling time) and must be finite and unit at every step, within tolerance at the horizon and over the last 10 %, and never end farther than it started.',
+   note='Noise realisations are a finite menu of periodic patterns, not all realisations; horizons/tolerances are per configuration (evidence lists them); known findings: UKF (covariance not positive definite / divergence), FKF (algebraic convergence, slower than the horizon from >= 30 deg).'),
 }
 PENDING_REASON = 'check not built yet in this session (planned in DESIGN.md section 3); not claimed until it runs clean'
 
